@@ -1837,4 +1837,188 @@ theorem intersectApply_spec (mx : Nat) (sa sb : List Interval) (hA : WF sa) (hB 
       rw [h1]
       simpa using ⟨h2, h3⟩
 
+
+-- ---------------------------------------------------------------------------------------------
+-- iteration / count
+
+theorem interval_values_mem (i : Interval) (x : Nat) : x ∈ i.values ↔ inIv i x := by
+  unfold Interval.values inIv
+  simp only [List.mem_map, List.mem_range]
+  constructor
+  · rintro ⟨k, hk, rfl⟩; omega
+  · intro h; exact ⟨x - i.lo, by omega, by omega⟩
+
+theorem interval_values_sorted (i : Interval) : i.values.Pairwise (· < ·) := by
+  unfold Interval.values
+  rw [List.pairwise_map]
+  exact List.Pairwise.imp (fun h => by omega) List.pairwise_lt_range
+
+theorem values_mem (l : List Interval) (x : Nat) : x ∈ (IvSet.mk none l).values ↔ Mem l x := by
+  unfold IvSet.values Mem
+  simp only [List.mem_flatMap, interval_values_mem]
+
+theorem values_sorted : ∀ (l : List Interval), WF l → (l.flatMap Interval.values).Pairwise (· < ·) := by
+  intro l
+  induction l with
+  | nil => intro _; simp
+  | cons b rest ih =>
+    intro h
+    simp only [List.flatMap_cons]
+    rw [List.pairwise_append]
+    refine ⟨interval_values_sorted b, ih h.tail, ?_⟩
+    intro x hx y hy
+    rw [interval_values_mem] at hx
+    simp only [List.mem_flatMap, interval_values_mem] at hy
+    obtain ⟨c, hc, hy⟩ := hy
+    have := h.head_lt c hc
+    unfold inIv at hx hy; omega
+
+theorem count_eq_length : ∀ (l : List Interval), (∀ b ∈ l, b.lo ≤ b.hi) →
+    (l.map Interval.len).sum = (l.flatMap Interval.values).length := by
+  intro l
+  induction l with
+  | nil => intro _; simp
+  | cons b rest ih =>
+    intro h
+    have hb := h b (List.mem_cons_self ..)
+    simp only [List.map_cons, List.sum_cons, List.flatMap_cons, List.length_append]
+    rw [ih (fun c hc => h c (List.mem_cons_of_mem _ hc))]
+    simp only [Interval.len, Interval.values, List.length_map, List.length_range]
+    omega
+
+
+-- ---------------------------------------------------------------------------------------------
+-- the plain sorted duplicate-free element list reference
+
+theorem sorted_ext : ∀ (l1 l2 : List Nat), l1.Pairwise (· < ·) → l2.Pairwise (· < ·) →
+    (∀ x, x ∈ l1 ↔ x ∈ l2) → l1 = l2 := by
+  intro l1
+  induction l1 with
+  | nil =>
+    intro l2 _ _ h
+    cases l2 with
+    | nil => rfl
+    | cons y ys => exact absurd ((h y).2 (List.mem_cons_self ..)) (by simp)
+  | cons x xs ih =>
+    intro l2 h1 h2 h
+    cases l2 with
+    | nil => exact absurd ((h x).1 (List.mem_cons_self ..)) (by simp)
+    | cons y ys =>
+      have hx := List.pairwise_cons.1 h1
+      have hy := List.pairwise_cons.1 h2
+      have hxy : x = y := by
+        have a1 := (h x).1 (List.mem_cons_self ..)
+        have a2 := (h y).2 (List.mem_cons_self ..)
+        rcases List.mem_cons.1 a1 with e | m1
+        · exact e
+        · rcases List.mem_cons.1 a2 with e | m2
+          · exact e.symm
+          · have := hy.1 x m1; have := hx.1 y m2; omega
+      subst hxy
+      congr 1
+      refine ih ys hx.2 hy.2 ?_
+      intro z
+      constructor
+      · intro hz
+        rcases List.mem_cons.1 ((h z).1 (List.mem_cons_of_mem _ hz)) with e | m
+        · have := hx.1 z hz; omega
+        · exact m
+      · intro hz
+        rcases List.mem_cons.1 ((h z).2 (List.mem_cons_of_mem _ hz)) with e | m
+        · have := hy.1 z hz; omega
+        · exact m
+
+theorem insertElem_mem (x : Nat) : ∀ (l : List Nat) (y : Nat), y ∈ insertElem x l ↔ y = x ∨ y ∈ l := by
+  intro l
+  induction l with
+  | nil => intro y; simp [insertElem]
+  | cons z zs ih =>
+    intro y
+    unfold insertElem
+    split
+    · simp
+    · split
+      · rename_i h; subst h; simp
+      · simp only [List.mem_cons, ih y]
+        constructor
+        · rintro (h | h | h)
+          · exact Or.inr (Or.inl h)
+          · exact Or.inl h
+          · exact Or.inr (Or.inr h)
+        · rintro (h | h | h)
+          · exact Or.inr (Or.inl h)
+          · exact Or.inl h
+          · exact Or.inr (Or.inr h)
+
+theorem insertElem_sorted (x : Nat) : ∀ (l : List Nat), l.Pairwise (· < ·) → (insertElem x l).Pairwise (· < ·) := by
+  intro l
+  induction l with
+  | nil => intro _; simp [insertElem]
+  | cons z zs ih =>
+    intro h
+    have hz := List.pairwise_cons.1 h
+    unfold insertElem
+    split
+    · rename_i hlt
+      refine List.pairwise_cons.2 ⟨?_, h⟩
+      intro y hy
+      rcases List.mem_cons.1 hy with e | m
+      · omega
+      · have := hz.1 y m; omega
+    · split
+      · exact h
+      · rename_i h1 h2
+        refine List.pairwise_cons.2 ⟨?_, ih hz.2⟩
+        intro y hy
+        rcases (insertElem_mem x zs y).1 hy with e | m
+        · omega
+        · exact hz.1 y m
+
+theorem foldl_insertElem (f : Nat → Nat) : ∀ (ks : List Nat) (acc : List Nat), acc.Pairwise (· < ·) →
+    (ks.foldl (fun acc k => insertElem (f k) acc) acc).Pairwise (· < ·) ∧
+    ∀ y, y ∈ ks.foldl (fun acc k => insertElem (f k) acc) acc ↔ y ∈ acc ∨ ∃ k ∈ ks, y = f k := by
+  intro ks
+  induction ks with
+  | nil => intro acc h; simp [h]
+  | cons k ks ih =>
+    intro acc h
+    simp only [List.foldl_cons]
+    obtain ⟨h1, h2⟩ := ih (insertElem (f k) acc) (insertElem_sorted _ acc h)
+    refine ⟨h1, ?_⟩
+    intro y
+    rw [h2 y, insertElem_mem]
+    simp only [List.mem_cons, exists_eq_or_imp]
+    constructor
+    · rintro ((h | h) | h)
+      · exact Or.inr (Or.inl h)
+      · exact Or.inl h
+      · exact Or.inr (Or.inr h)
+    · rintro (h | h | h)
+      · exact Or.inl (Or.inr h)
+      · exact Or.inl (Or.inl h)
+      · exact Or.inr h
+
+theorem refInsert_spec (l : List Nat) (lo hi : Nat) (h : l.Pairwise (· < ·)) :
+    (refInsert l lo hi).Pairwise (· < ·) ∧ ∀ y, y ∈ refInsert l lo hi ↔ y ∈ l ∨ (lo ≤ y ∧ y ≤ hi) := by
+  unfold refInsert
+  obtain ⟨h1, h2⟩ := foldl_insertElem (fun k => lo + k) (List.range (hi + 1 - lo)) l h
+  refine ⟨h1, ?_⟩
+  intro y
+  rw [h2 y]
+  simp only [List.mem_range]
+  constructor
+  · rintro (h | ⟨k, hk, rfl⟩)
+    · exact Or.inl h
+    · exact Or.inr (by omega)
+  · rintro (h | h)
+    · exact Or.inl h
+    · exact Or.inr ⟨y - lo, by omega, by omega⟩
+
+theorem refRemove_spec (l : List Nat) (lo hi : Nat) (h : l.Pairwise (· < ·)) :
+    (refRemove l lo hi).Pairwise (· < ·) ∧ ∀ y, y ∈ refRemove l lo hi ↔ y ∈ l ∧ ¬ (lo ≤ y ∧ y ≤ hi) := by
+  unfold refRemove
+  refine ⟨h.filter _, ?_⟩
+  intro y
+  simp only [List.mem_filter, decide_eq_true_eq]
+
 end Quic.Proofs.IvLemmas
